@@ -2631,6 +2631,71 @@ theorem mapPipeline_drop_paths {κ} (t0 t' : RawTree) (cfg : Config) (vote : Ora
   cases h
   exact hrest
 
+/-! ### flattening a well-formed tree gives a well-formed tree -/
+
+theorem nodup_hasDup_false : ∀ (xs : List Nat), xs.Nodup → hasDup xs = false
+  | [], _ => rfl
+  | x :: xs, h => by
+    have h' := List.nodup_cons.mp h
+    simp only [hasDup, Bool.or_eq_false_iff]
+    exact ⟨by simpa using h'.1, nodup_hasDup_false xs h'.2⟩
+
+/-- every level of a well-formed tree has a node -/
+theorem chain_nonempty (t : RawTree) : ∀ (ls : List Level) (pl : Option Level),
+    ChainOK t pl ls → parentNodeList t pl ≠ [] → ∀ l ∈ ls, t.nodesAt l ≠ []
+  | [], _, _, _, _, h => by cases h
+  | cl :: rest, pl, hc, hne, l, hl => by
+    obtain ⟨facts, hrest⟩ := hc
+    have hcl : t.nodesAt cl ≠ [] := by
+      cases hps : parentNodeList t pl with
+      | nil => exact absurd hps hne
+      | cons p ps =>
+        obtain ⟨kids, _, hkne, hsub⟩ := facts.kids p (by rw [hps]; simp)
+        cases kids with
+        | nil => exact absurd rfl hkne
+        | cons k ks =>
+          obtain ⟨k', hk', _⟩ := (mem_parentNodeList_some t cl _).mp (hsub k (by simp))
+          intro he; rw [he] at hk'; cases hk'
+    rcases List.mem_cons.mp hl with h | h
+    · subst h; exact hcl
+    · apply chain_nonempty t rest (some cl) hrest _ l h
+      intro he
+      simp only [parentNodeList, List.map_eq_nil_iff] at he
+      cases hn : t.nodesAt cl with
+      | nil => exact hcl hn
+      | cons a as =>
+        have : a ∈ sortNat (t.nodesAt cl) := (mem_sortNat a _).mpr (by rw [hn]; simp)
+        rw [he] at this; cases this
+
+theorem wfb_nodesAt_nonempty {t : RawTree} (hwf : wfb t = true) {l : Level} (hl : l ∈ t.hierarchy) :
+    t.nodesAt l ≠ [] := by
+  have hwf' := hwf
+  simp only [wfb, Bool.and_eq_true, Bool.not_eq_true'] at hwf'
+  exact chain_nonempty t t.hierarchy none (chainOK_of_all t t.hierarchy none hwf'.2)
+    (by simp [parentNodeList]) l hl
+
+theorem wfb_flatten {t : RawTree} (hwf : wfb t = true) {ll : Level} (hleaf : t.leafLevel = some ll) :
+    wfb t.flatten = true := by
+  have hnd := wfb_nodup_hierarchy hwf
+  have hll : ll ∈ t.hierarchy := List.mem_of_getLast? hleaf
+  have hfh : t.flatten.hierarchy = [ll] := by simp only [RawTree.flatten, hleaf]
+  have hnodes := flatten_nodesAt_leaf hnd hleaf
+  have hk := wfb_nodup_nodesAt hwf hll
+  have hne := wfb_nodesAt_nonempty hwf hll
+  have hchildren : t.flatten.children none = .ok (t.nodesAt ll) := by
+    simp only [RawTree.children, hfh, List.head?_cons, hnodes]
+  have hkD : kidsD t.flatten none = t.nodesAt ll := by simp [kidsD, hchildren]
+  have hemp : (t.nodesAt ll).isEmpty = false := by
+    cases h : t.nodesAt ll with
+    | nil => exact absurd h hne
+    | cons a b => rfl
+  simp only [wfb, hfh, levelPairs, List.map_cons, List.map_nil, List.zip_cons_cons, List.zip_nil_right,
+    List.all_cons, List.all_nil, Bool.and_true, levelOK, parentNodeList, hnodes, hchildren, hkD,
+    List.any_cons, List.any_nil, Bool.or_false, hemp, Bool.not_false, Bool.true_and,
+    nodup_hasDup_false _ hk, beq_self_eq_true, Bool.true_or, Bool.and_eq_true, List.all_eq_true,
+    decide_eq_true_eq]
+  refine ⟨by simp [hasDup], ⟨fun c hc => by simpa using hc, fun c hc => by simpa using hc⟩⟩
+
 /-! ### a concrete instance for the non-vacuity examples of `Props/C01, C06, C17` -/
 
 /-! a 3-level taxonomy with a single top node (10), a single-child parent (20)
